@@ -844,10 +844,42 @@ def _corpus(ctx):
             ctx.count("corpus")
 
 
+def _sequences(ctx, rng, n):
+    """Call *sequences* on one array object as the scoring loops issue them (`cache=True`, `out=` buffers): the result of
+    a call must not depend on earlier calls (different interpolation order, buffer refilled in place, other rotation)."""
+    be = _be()
+    for it in range(n):
+        d = 2 if it % 2 else 3
+        m = int(rng.integers(3, 7))
+        shape = (m,) * d
+        arr = rng.normal(size=shape).astype(np.float32)
+        rots = [R for R in signed_perms(d, proper=True)]
+        hist = []
+        ok, why = True, ""
+        for step in range(int(rng.integers(3, 7))):
+            order = int(rng.choice([0, 1, 2, 3]))
+            R = rots[int(rng.integers(0, len(rots)))]
+            if rng.random() < 0.3:
+                arr[...] = rng.normal(size=shape).astype(np.float32)      # same object, new content
+            out = np.zeros(shape, np.float32)
+            be.rigid_transform(arr=arr, rotation_matrix=np.array(R, dtype=np.float32), out=out, use_geometric_center=True,
+                               order=order, cache=True)
+            want = spec_forward_grid(arr, R, [0] * d)
+            hist.append({"order": order, "R": np.array(R).tolist()})
+            if want is None or float(np.max(np.abs(out - want))) > 1e-4:
+                ok, why = False, f"step {step}: max deviation {float(np.max(np.abs(out - want))):.4g}"
+                break
+        ctx.spec("grid rotation is an exact permutation whatever was transformed before (cache=True, same array object)",
+                 {"kind": "sequence", "shape": list(shape), "history": hist}, ok, why, key="grid:call-sequence")
+        ctx.distinct(("sequence", shape, tuple(h["order"] for h in hist)))
+        ctx.count("sequence")
+
+
 def run(ctx):
     _obligations(ctx)
     _corpus(ctx)
     rng = ctx.rng("main")
+    _sequences(ctx, ctx.rng("sequences"), ctx.budget(40, 300))
     grid = gen_grid(ctx, rng)
     _run_cases(ctx, grid)
     _run_cases(ctx, gen_matrix(ctx, rng, ctx.budget(300, 3000)))
